@@ -11,6 +11,11 @@ C02 driver. Kinds (plus all of `Proto.diagStep`: msweep, hsweep, bw, mprob, hpro
                                               → one token per op: the stored table (`none` or max weights)
   isingham <nvars> <edges> <gamma> <h>        edges `a:b:J,…` → table Hamiltonian `H<n>!…` + `make_bond_weights` of it
   isingtable <nvars> <edges> <gamma> <h> <ops>  ops `+`-separated: `E0` | `E1` | `D` → one table token per op
+  isingpair <nvars> <edgesA> <gammaA> <hA> <edgesB> <gammaB> <hB> <ops>
+                                              ops: `L`/`R` + Ising op on that sampler | `S` (swap, any direction /
+                                              accepted tempering swap) | `N` (tempering step without swap)
+                                              → two table tokens (A, B) per op
+  genpair <ops>                               ops: `L`/`R` + generic op | `S` | `N` → two table tokens per op
 -/
 
 def parseEdges (s : String) : List (Nat × Nat × Rat) :=
@@ -38,6 +43,19 @@ def parseIsingOp (tok : String) : Option IsingOp :=
 
 def mkGen (bs : List TBond) : BW := makeBondWeights (tableHam bs)
 
+def parsePairOp {o : Type} (f : String → Option o) (tok : String) : Option (HBPairOp o) :=
+  if tok == "S" then some .swap
+  else if tok == "N" then some .noswap
+  else if tok.startsWith "L" then (f (tok.drop 1).toString).map .left
+  else if tok.startsWith "R" then (f (tok.drop 1).toString).map .right
+  else none
+
+def runPair {σ o : Type} (f : σ → o → σ) (tbl : σ → Option BW) (p : HBPair σ Unit) (ops : List (HBPairOp o)) : String :=
+  let (_, outs) := ops.foldl (fun (acc : HBPair σ Unit × List String) op =>
+    let p' := acc.1.step f op
+    (p', acc.2 ++ [showTable (tbl p'.a), showTable (tbl p'.b)])) (p, [])
+  String.intercalate " " outs
+
 def step (toks : List String) : String :=
   match diagStep toks with
   | some r => r
@@ -59,6 +77,17 @@ def step (toks : List String) : String :=
         let s' := acc.1.step mkGen op
         (s', acc.2 ++ [showTable s'.table])) (({ ham := bs, table := none } : IsingS (List TBond)), [])
       String.intercalate " " outs
+    | ["isingpair", nvars, ea, ga, ha, eb, gb, hb, ops] =>
+      let ba := isingBonds (parseEdges ea) (parseRat ga) (parseRat ha) (parseNat nvars)
+      let bb := isingBonds (parseEdges eb) (parseRat gb) (parseRat hb) (parseNat nvars)
+      let os := (ops.splitOn "+").filterMap (parsePairOp parseIsingOp)
+      runPair (IsingS.step mkGen) (·.table)
+        ({ a := { ham := ba, table := none }, ma := (), b := { ham := bb, table := none }, mb := () } :
+          HBPair (IsingS (List TBond)) Unit) os
+    | ["genpair", ops] =>
+      let os := (ops.splitOn "+").filterMap (parsePairOp parseGenOp)
+      runPair (GenS.step mkGen) (·.table)
+        ({ a := GenS.init TBond, ma := (), b := GenS.init TBond, mb := () } : HBPair (GenS TBond) Unit) os
     | _ => "bad-op"
 
 def main : IO Unit := run step
